@@ -56,6 +56,17 @@ def run_call(mesh, call, state):
     nv, ne, nf = len(mesh.vertices), len(mesh.edges), len(mesh.faces)
     ncell = len(mesh.cells) if hasattr(mesh, "cells") else 0
     ncorn = len(mesh.face_corners)
+    if nm == "move":
+        # the user moves the vertices of the mesh object in place; attributes computed before are now stale
+        import mouette as M
+        for i, pnew in enumerate(call[1]):
+            mesh.vertices[i] = M.Vec(np.array(pnew, dtype=float))
+        state["moved"] = [list(map(float, pnew)) for pnew in call[1]]
+        if state.get("is_surface"):
+            ref = build(dict(state["case"], V=state["moved"]))
+            ang = A.corner_angles(ref, persistent=False)
+            return {"angles": [[fl(ang[c]), math.cos(fl(ang[c])), math.sin(fl(ang[c]))] for c in range(len(ref.face_corners))]}
+        return {"angles": None}
     if nm == "edge_length":
         return scal_list(A.edge_length(mesh, persistent=call[1], dense=call[2]), ne)
     if nm == "edge_middle":
@@ -140,7 +151,7 @@ def run_case(case):
     except Exception as ex:  # noqa
         res["build_error"] = "%s: %s" % (type(ex).__name__, ex)
         return res
-    state = {}
+    state = {"case": {k: case.get(k) for k in ("V", "F", "C")}, "is_surface": not case.get("C")}
     for call in case["script"]:
         try:
             with np.errstate(all="ignore"):
